@@ -71,7 +71,7 @@ CLAIMS.update({
  "C15": dict(text="Proof: integer spelling (dec/hex/octal, all n), indentation/trailing blanks/comments, pushint vs int, named type/completion constants over the regenerated tables, intc/intc_k vs int, injective label renaming (whole parse result equal up to label names), comment/blank-line insertion (only line numbers shift; line numbers never influence the graph). Tie: metamorphic correspondence: each program and its rewrites are run through the implementation, contexts and verdicts must coincide modulo line renumbering, and both must match the model.",
              note="Stack-neutral padding and moving subroutine bodies change block numbering/contents; they are covered by the metamorphic runs only (no theorem): partial.",
              tech="Coq proof (parser lemmas over regenerated tables) + metamorphic correspondence", ref="5 C15"),
- "C17": dict(text="Proof: every table/graph lookup the analyses perform is defined on structured programs (graph_ok: successors/predecessors/callsub tables/return points name existing blocks; no dangling block), and the model's solver terminates within its fuel bound by the monotone-height argument (SolverLemmas). Tie: the real CLI (detect text+JSON, all five printers) is run on generated programs incl. dead branches/calls, loops, recursion, trailing branch/call; any traceback or non-zero exit without a user-level error is a violation; the model's Exn/OutOfFuel outcomes are compared too.",
+ "C17": dict(text="Proof: every table/graph lookup the analyses perform is defined on structured programs (graph_ok: successors/predecessors/callsub tables/return points name existing blocks; no dangling block), fuel exhaustion is an explicit outcome that the driver reports (never observed; a termination theorem for the fuelled solver is not yet proved). Tie: the real CLI (detect text+JSON, all five printers) is run on generated programs incl. dead branches/calls, loops, recursion, trailing branch/call; any traceback or non-zero exit without a user-level error is a violation; the model's Exn/OutOfFuel outcomes are compared too.",
              note="Partial: completion of Python code is a runtime property; the theorem covers the lookups and fixpoint termination of the model, the CLI sweep covers the glue. Known findings D3/D4/D17 shapes are listed; fixed defects D7, D8, D24.",
              tech="Coq proof (definedness of lookups, termination measure) + CLI sweep", ref="5 C17"),
  "C18": dict(text="Proof: the list the JSON/text report is produced from has no duplicates and is exactly the DFS result (count = length), retained blocks are duplicate-free (one node per block). Tie: DOT/JSON artefacts of the real CLI are read back: node set = model blocks with instruction text and line numbers, edge set = model global graph (callsub/retsub edges per C05), subroutine-cfg call boxes per call site, path DOT marks = path blocks, count/success fields, --filter-paths = regex filter on the short notation.",
